@@ -988,4 +988,375 @@ theorem verifyHTLC_complete (env : Env) (p : Proof) (s : Secret)
       simp only [hlen, hd, hv, if_false, Bool.not_true, Bool.false_eq_true]
     · rw [if_neg hpos]
 
+/-! ## SIG_ALL: ProofsSigAll, verifyBlindedMessages; the signing helpers -/
+
+theorem opens_of_checkPreimage {env : Env} {pre data : String} (hc : checkPreimage env pre data = .ok ()) : Opens env pre data := by
+  unfold checkPreimage at hc
+  cases hd : hexDecode pre with
+  | none => simp [hd] at hc
+  | some bytes =>
+    simp only [hd] at hc
+    by_cases h64 : data.length ≠ 64
+    · rw [if_pos h64] at hc; cases hc
+    · rw [if_neg h64] at hc
+      by_cases hh : env.sha256hex bytes ≠ data
+      · rw [if_pos hh] at hc; cases hc
+      · exact ⟨by simpa using h64, bytes, hd, by simpa using hh⟩
+
+/-- ProofsSigAll (repaired): true exactly when SOME input — at any position — carries SIG_ALL. -/
+theorem proofsSigAll_iff : ∀ (proofs : List Proof), proofsSigAll proofs = true ↔ ∃ p ∈ proofs, CarriesSigAll p := by
+  intro proofs
+  refine ⟨proofsSigAll_sound proofs, ?_⟩
+  induction proofs with
+  | nil => simp
+  | cons p rest ih =>
+    rintro ⟨q, hq, s', hs', ha'⟩
+    unfold proofsSigAll
+    cases hs : p.secret with
+    | none =>
+      simp only [sigAllOnPlainSecret]
+      rcases List.mem_cons.1 hq with rfl | hq
+      · rw [hs] at hs'; cases hs'
+      · exact ih ⟨q, hq, s', hs', ha'⟩
+    | some s =>
+      simp only
+      by_cases ha : isSigAll s = true
+      · simp [ha]
+      · simp only [ha, Bool.false_eq_true, if_false]
+        rcases List.mem_cons.1 hq with rfl | hq
+        · rw [hs] at hs'; cases hs'; exact absurd ha' ha
+        · exact ih ⟨q, hq, s', hs', ha'⟩
+
+/-- one input satisfies the SIG_ALL consistency demanded by verifyBlindedMessages -/
+def SameCondition (env : Env) (keys : List Key) (n : Nat) (q : Proof) : Prop :=
+  ∃ sq t, q.secret = some sq ∧ isSigAll sq = true ∧ parseTags env sq.tags = .ok t ∧
+    publicKeys env sq = .ok keys ∧ sigsRequired t = n
+
+theorem sameConditions_ok (env : Env) (keys : List Key) (n : Nat) :
+    ∀ (proofs : List Proof), sameConditions env keys n proofs = .ok () ↔ ∀ q ∈ proofs, SameCondition env keys n q := by
+  intro proofs
+  induction proofs with
+  | nil => simp [sameConditions]
+  | cons p rest ih =>
+    unfold sameConditions
+    simp only [List.mem_cons, forall_eq_or_imp, ← ih]
+    cases hs : p.secret with
+    | none => simp [SameCondition, hs]
+    | some s =>
+      simp only [SameCondition, hs, Option.some.injEq, exists_and_left, exists_eq_left']
+      by_cases ha : isSigAll s = true
+      · simp only [ha, Bool.not_true, Bool.false_eq_true, if_false, true_and]
+        cases hp : parseTags env s.tags with
+        | err e => simp
+        | ok t =>
+          simp only [Res.ok.injEq, exists_eq_left']
+          cases hk : publicKeys env s with
+          | err e => simp
+          | ok cur =>
+            simp only [Res.ok.injEq]
+            by_cases hkeys : keys ≠ cur
+            · rw [if_pos hkeys]
+              constructor
+              · intro h; cases h
+              · rintro ⟨⟨h, _⟩, _⟩; exact absurd h.symm hkeys
+            · rw [if_neg hkeys]
+              have hkeys' : cur = keys := by simpa [eq_comm] using hkeys
+              by_cases hn : n ≠ sigsRequired t
+              · rw [if_pos hn]
+                constructor
+                · intro h; cases h
+                · rintro ⟨⟨_, h⟩, _⟩; exact absurd h.symm hn
+              · rw [if_neg hn]
+                have hn' : sigsRequired t = n := by simpa [eq_comm] using hn
+                simp [hkeys', hn']
+      · simp [ha]
+
+/-- one output carries what SIG_ALL demands -/
+def OutputSigned (env : Env) (s0 : Secret) (keys : List Key) (n : Nat) (o : Output) : Prop :=
+  (s0.kind = .p2pk ∨ s0.kind = .htlc) ∧ o.witness.jsonOk = true ∧
+  (s0.kind = .htlc → Opens env o.witness.preimage s0.data) ∧
+  ∃ m, o.msgDecoded = some m ∧ o.witness.signatures.Nodup ∧ Signed env.valid m o.witness.signatures keys n
+
+theorem checkOutput_sound {env : Env} {s0 : Secret} {keys : List Key} {n : Nat} {o : Output}
+    (h : checkOutput env s0 keys n o = .ok ()) : OutputSigned env s0 keys n o := by
+  unfold checkOutput at h
+  cases hm : o.msgDecoded with
+  | none => simp [hm] at h
+  | some m =>
+    simp only [hm] at h
+    have key : ∀ sigs, (if duplicateSignatures sigs = true then Res.err Err.duplicateSignatures
+        else if (!hasValidSignatures env.valid m sigs n keys) = true then Res.err Err.notEnoughSignatures else Res.ok ()) = Res.ok () →
+        sigs.Nodup ∧ Signed env.valid m sigs keys n := by
+      intro sigs h
+      by_cases hd : duplicateSignatures sigs = true
+      · rw [if_pos hd] at h; cases h
+      · rw [if_neg hd] at h
+        by_cases hv : hasValidSignatures env.valid m sigs n keys = true
+        · exact ⟨(duplicateSignatures_iff _).1 (by simpa using hd), hasValidSignatures_sound _ _ _ _ _ hv⟩
+        · simp [hv] at h
+    cases hk : s0.kind with
+    | anyone => simp [hk] at h
+    | p2pk =>
+      simp only [hk] at h
+      by_cases hj : o.witness.jsonOk = true
+      · simp only [hj, Bool.not_true, Bool.false_eq_true, if_false] at h
+        refine ⟨Or.inl hk, hj, ?_, m, hm, key _ h⟩
+        intro hh; rw [hk] at hh; cases hh
+      · simp [hj] at h
+    | htlc =>
+      simp only [hk] at h
+      by_cases hj : o.witness.jsonOk = true
+      · simp only [hj, Bool.not_true, Bool.false_eq_true, if_false] at h
+        cases hc : checkPreimage env o.witness.preimage s0.data with
+        | err e => simp [hc] at h
+        | ok u =>
+          simp only [hc] at h
+          exact ⟨Or.inr hk, hj, fun _ => opens_of_checkPreimage hc, m, hm, key _ h⟩
+      · simp [hj] at h
+
+theorem checkOutputs_sound {env : Env} {s0 : Secret} {keys : List Key} {n : Nat} :
+    ∀ {outs : List Output}, checkOutputs env s0 keys n outs = .ok () → ∀ o ∈ outs, OutputSigned env s0 keys n o
+  | [], _ => by simp
+  | o :: rest, h => by
+    unfold checkOutputs at h
+    cases ho : checkOutput env s0 keys n o with
+    | err e => simp [ho] at h
+    | ok u =>
+      simp only [ho] at h
+      intro x hx
+      rcases List.mem_cons.1 hx with rfl | hx
+      · exact checkOutput_sound ho
+      · exact checkOutputs_sound h x hx
+
+/-- What a successful SIG_ALL output check establishes: one key list and threshold shared by EVERY input, every input
+    a NUT-10 secret with SIG_ALL, every output signed by `n` distinct positions of that key list over its decoded `B_`
+    (and carrying the preimage when the first input is an HTLC). -/
+def SigAllOK (env : Env) (proofs : List Proof) (outs : List Output) : Prop :=
+  ∃ (s0 : Secret) (keys : List Key) (n : Nat),
+    (∃ p0 rest, proofs = p0 :: rest ∧ p0.secret = some s0) ∧
+    (∀ q ∈ proofs, SameCondition env keys n q) ∧
+    (∀ o ∈ outs, OutputSigned env s0 keys n o)
+
+theorem verifyBlindedMessages_sound {env : Env} {proofs : List Proof} {outs : List Output}
+    (h : verifyBlindedMessages env proofs outs = .ok ()) : SigAllOK env proofs outs := by
+  unfold verifyBlindedMessages at h
+  match proofs, h with
+  | [], h => simp at h
+  | p0 :: rest, h =>
+    simp only at h
+    cases hs : p0.secret with
+    | none => simp [hs] at h
+    | some s0 =>
+      simp only [hs] at h
+      cases hk : publicKeys env s0 with
+      | err e => simp [hk] at h
+      | ok keys =>
+        simp only [hk] at h
+        cases hp : parseTags env s0.tags with
+        | err e => simp [hp] at h
+        | ok t0 =>
+          simp only [hp] at h
+          cases hc : sameConditions env keys (sigsRequired t0) (p0 :: rest) with
+          | err e => simp [hc] at h
+          | ok u =>
+            simp only [hc] at h
+            exact ⟨s0, keys, sigsRequired t0, ⟨p0, rest, rfl, hs⟩, (sameConditions_ok env keys _ _).1 hc, checkOutputs_sound h⟩
+
+
+theorem hvs_single {valid : Sig → Key → Msg → Bool} {m : Msg} {s : Sig} {k : Key} {keys : List Key}
+    (hk : k ∈ keys) (hv : valid s k m = true) : hasValidSignatures valid m [s] 1 keys = true := by
+  simp only [hasValidSignatures, decide_eq_true_eq, ge_iff_le, one_le_hvsCount_iff]
+  exact ⟨s, by simp, k, hk, hv⟩
+
+/-- the holder of key `k` is entitled to spend a P2PK secret alone at the current time -/
+def CanSignP2PK (env : Env) (k : Key) (s : Secret) : Prop :=
+  ∃ t, parseTags env s.tags = .ok t ∧
+    (if expired env t = true then t.refund = [] ∨ k ∈ t.refund
+     else t.nSigs ≤ 1 ∧ (t.nSigs > 0 → t.pubkeys ≠ []) ∧
+       ∃ k0, env.parseKey s.data = some k0 ∧ (k = k0 ∨ (t.nSigs > 0 ∧ k ∈ t.pubkeys)))
+
+theorem verifyP2PK_helper (env : Env) (sign : Key → Msg → Sig) (hsign : ∀ k m, env.valid (sign k m) k m = true)
+    (k : Key) (p : Proof) (s : Secret) (h : CanSignP2PK env k s) :
+    verifyP2PK env { p with witness := { jsonOk := true, signatures := [sign k p.msg], preimage := "" } } s = .ok () := by
+  obtain ⟨t, hp, h⟩ := h
+  unfold verifyP2PK
+  simp only [hp]
+  by_cases hx : expired env t = true
+  · simp only [hx, if_true] at h ⊢
+    by_cases hr0 : t.refund.length = 0
+    · rw [if_pos hr0]
+    · rw [if_neg hr0]
+      rcases h with h | h
+      · exact absurd (by rw [h]; rfl) hr0
+      · simp [hvs_single h (hsign k p.msg)]
+  · simp only [hx, if_false] at h ⊢
+    obtain ⟨hn, hne, k0, hk0, hk⟩ := h
+    simp only [hk0]
+    have he : ¬ (t.nSigs > 0 ∧ t.pubkeys.length = 0) := by
+      rintro ⟨h1, h2⟩; exact hne h1 (List.length_eq_zero_iff.1 h2)
+    rw [if_neg he]
+    have hreq : (if t.nSigs > 0 then t.nSigs else 1) = 1 := by split <;> omega
+    have hmem : k ∈ (if t.nSigs > 0 then k0 :: t.pubkeys else [k0]) := by
+      rcases hk with rfl | ⟨hpos, hk⟩
+      · split <;> simp
+      · simp [hpos, hk]
+    simp [hreq, hvs_single hmem (hsign k p.msg), duplicateSignatures]
+
+/-- helpers_accepted, inputs: what AddSignatureToInputs writes is accepted by verifyProofs, whenever the signing key is
+    entitled to spend each P2PK input alone (and no input is an HTLC, which needs a preimage). -/
+theorem addSignatureToInputs_accepted (env : Env) (sign : Key → Msg → Sig) (hsign : ∀ k m, env.valid (sign k m) k m = true)
+    (k : Key) : ∀ (proofs : List Proof),
+    (∀ p ∈ proofs, ∀ s, p.secret = some s → s.kind ≠ .htlc ∧ (s.kind = .p2pk → CanSignP2PK env k s)) →
+    verifyProofs env (addSignatureToInputs sign k proofs) = .ok ()
+  | [], _ => rfl
+  | p :: rest, h => by
+    have ih := addSignatureToInputs_accepted env sign hsign k rest (fun q hq => h q (by simp [hq]))
+    unfold addSignatureToInputs at ih ⊢
+    simp only [List.map_cons, verifyProofs]
+    have hp := h p (by simp)
+    have : verifySpendCond env { p with witness := { jsonOk := true, signatures := [sign k p.msg], preimage := "" } } = .ok () := by
+      unfold verifySpendCond
+      cases hs : p.secret with
+      | none => rfl
+      | some s =>
+        simp only
+        obtain ⟨hnh, hc⟩ := hp s hs
+        cases hk : s.kind with
+        | anyone => rfl
+        | htlc => exact absurd hk hnh
+        | p2pk => exact verifyP2PK_helper env sign hsign k p s (hc hk)
+    simp only [this, ih]
+
+theorem checkOutputs_p2pk_helper (env : Env) (sign : Key → Msg → Sig) (hsign : ∀ k m, env.valid (sign k m) k m = true)
+    (k : Key) (s0 : Secret) (keys : List Key) (hkind : s0.kind = .p2pk) (hk : k ∈ keys) :
+    ∀ (outs outs' : List Output), addSignatureToOutputs sign k outs = .ok outs' → checkOutputs env s0 keys 1 outs' = .ok ()
+  | [], outs', h => by simp [addSignatureToOutputs] at h; subst h; rfl
+  | o :: rest, outs', h => by
+    unfold addSignatureToOutputs at h
+    cases hm : o.msgDecoded with
+    | none => simp [hm] at h
+    | some m =>
+      simp only [hm] at h
+      cases hr : addSignatureToOutputs sign k rest with
+      | err e => simp [hr] at h
+      | ok os =>
+        simp only [hr, Res.ok.injEq] at h
+        subst h
+        have ih := checkOutputs_p2pk_helper env sign hsign k s0 keys hkind hk rest os hr
+        unfold checkOutputs
+        have : checkOutput env s0 keys 1 { o with witness := { jsonOk := true, signatures := [sign k m], preimage := "" } } = .ok () := by
+          unfold checkOutput
+          simp [hm, hkind, duplicateSignatures, hvs_single hk (hsign k m)]
+        rw [hm] at this
+        simp only [this, ih]
+
+/-- the inputs share one SIG_ALL condition (key list `keys`, threshold `n`), read off the first input's secret `s0` -/
+def SharedCondition (env : Env) (proofs : List Proof) (s0 : Secret) (keys : List Key) (n : Nat) : Prop :=
+  (∃ p0 rest, proofs = p0 :: rest ∧ p0.secret = some s0) ∧
+  publicKeys env s0 = .ok keys ∧ (∃ t0, parseTags env s0.tags = .ok t0 ∧ sigsRequired t0 = n) ∧
+  ∀ q ∈ proofs, SameCondition env keys n q
+
+theorem verifyBlindedMessages_of_shared {env : Env} {proofs : List Proof} {outs : List Output} {s0 : Secret}
+    {keys : List Key} {n : Nat} (h : SharedCondition env proofs s0 keys n) :
+    verifyBlindedMessages env proofs outs = checkOutputs env s0 keys n outs := by
+  obtain ⟨⟨p0, rest, rfl, hs⟩, hk, ⟨t0, hp, hn⟩, hall⟩ := h
+  unfold verifyBlindedMessages
+  simp only [hs, hk, hp, hn, (sameConditions_ok env keys n _).2 hall]
+
+/-- helpers_accepted, outputs: with SIG_ALL P2PK inputs sharing one condition of threshold 1, what AddSignatureToOutputs
+    writes with a listed key passes verifyBlindedMessages. -/
+theorem addSignatureToOutputs_accepted (env : Env) (sign : Key → Msg → Sig) (hsign : ∀ k m, env.valid (sign k m) k m = true)
+    (k : Key) (proofs : List Proof) (s0 : Secret) (keys : List Key) (hshared : SharedCondition env proofs s0 keys 1)
+    (hkind : s0.kind = .p2pk) (hk : k ∈ keys) (outs outs' : List Output) (h : addSignatureToOutputs sign k outs = .ok outs') :
+    verifyBlindedMessages env proofs outs' = .ok () := by
+  rw [verifyBlindedMessages_of_shared hshared]
+  exact checkOutputs_p2pk_helper env sign hsign k s0 keys hkind hk outs outs' h
+
+/-! ### HTLC helpers -/
+
+theorem verifyHTLC_helper (env : Env) (sign : Key → Msg → Sig) (hsign : ∀ k m, env.valid (sign k m) k m = true)
+    (k : Key) (s : Secret) (pre : String) (t : Tags) (hp : parseTags env s.tags = .ok t)
+    (hn : ¬ t.nSigs > 1) (hk : ¬ (t.nSigs > 0 ∧ (!t.pubkeys.contains k) = true))
+    (hopen : Opens env pre s.data) (hx : expired env t = true → t.refund = []) (p : Proof) :
+    verifyHTLC env { p with witness := { jsonOk := true, signatures := if decide (t.nSigs > 0) = true then [sign k p.msg] else [], preimage := pre } } s = .ok () := by
+  unfold verifyHTLC
+  simp only [hp]
+  by_cases hxx : expired env t = true
+  · simp [hxx, hx hxx]
+  · simp only [hxx, Bool.false_eq_true, if_false, checkPreimage_of_opens hopen]
+    by_cases hpos : t.nSigs > 0
+    · have hmem : k ∈ t.pubkeys := by
+        have : ¬ ((!t.pubkeys.contains k) = true) := fun h => hk ⟨hpos, h⟩
+        simpa using this
+      have h1 : t.nSigs = 1 := by omega
+      simp [hpos, h1, duplicateSignatures, hvs_single hmem (hsign k p.msg)]
+    · simp [hpos]
+
+/-- htlc_helpers_accepted, inputs: whenever AddWitnessHTLC itself succeeds, the preimage is the right one, and the lock
+    has not expired into a refund-only state, every input it writes passes VerifyHTLCProof. -/
+theorem addWitnessHTLC_accepted (env : Env) (sign : Key → Msg → Sig) (hsign : ∀ k m, env.valid (sign k m) k m = true)
+    (k : Key) (s : Secret) (pre : String) (hkind : s.kind = .htlc) (proofs proofs' : List Proof)
+    (hsec : ∀ p ∈ proofs, p.secret = some s)
+    (hopen : Opens env pre s.data)
+    (hx : ∀ t, parseTags env s.tags = .ok t → expired env t = true → t.refund = [])
+    (h : addWitnessHTLC env sign proofs s pre k = .ok proofs') : verifyProofs env proofs' = .ok () := by
+  unfold addWitnessHTLC at h
+  cases hp : parseTags env s.tags with
+  | err e => simp [hp] at h
+  | ok t =>
+    simp only [hp] at h
+    by_cases hn : t.nSigs > 1
+    · rw [if_pos hn] at h; cases h
+    · rw [if_neg hn] at h
+      by_cases hk : t.nSigs > 0 ∧ (!t.pubkeys.contains k) = true
+      · rw [if_pos hk] at h; cases h
+      · rw [if_neg hk] at h
+        simp only [Res.ok.injEq] at h
+        subst h
+        induction proofs with
+        | nil => rfl
+        | cons p rest ih =>
+          simp only [List.map_cons, verifyProofs]
+          have hs := hsec p (by simp)
+          have : verifySpendCond env { p with witness := { jsonOk := true, signatures := if decide (t.nSigs > 0) = true then [sign k p.msg] else [], preimage := pre } } = .ok () := by
+            unfold verifySpendCond
+            simp only [hs, hkind]
+            exact verifyHTLC_helper env sign hsign k s pre t hp hn hk hopen (hx t hp) p
+          simp only [this]
+          exact ih (fun q hq => hsec q (by simp [hq]))
+
+theorem checkOutputs_htlc_helper (env : Env) (sign : Key → Msg → Sig) (hsign : ∀ k m, env.valid (sign k m) k m = true)
+    (k : Key) (s0 : Secret) (keys : List Key) (pre : String) (hkind : s0.kind = .htlc) (hk : k ∈ keys)
+    (hopen : Opens env pre s0.data) :
+    ∀ (outs outs' : List Output), addWitnessHTLCToOutputs sign pre k outs = .ok outs' → checkOutputs env s0 keys 1 outs' = .ok ()
+  | [], outs', h => by simp [addWitnessHTLCToOutputs] at h; subst h; rfl
+  | o :: rest, outs', h => by
+    unfold addWitnessHTLCToOutputs at h
+    simp only [htlcOutputMsg] at h
+    cases hm : o.msgDecoded with
+    | none => simp [hm] at h
+    | some m =>
+      simp only [hm] at h
+      cases hr : addWitnessHTLCToOutputs sign pre k rest with
+      | err e => simp [hr] at h
+      | ok os =>
+        simp only [hr, Res.ok.injEq] at h
+        subst h
+        have ih := checkOutputs_htlc_helper env sign hsign k s0 keys pre hkind hk hopen rest os hr
+        unfold checkOutputs
+        have : checkOutput env s0 keys 1 { o with witness := { jsonOk := true, signatures := [sign k m], preimage := pre } } = .ok () := by
+          unfold checkOutput
+          simp [hm, hkind, duplicateSignatures, hvs_single hk (hsign k m), checkPreimage_of_opens hopen]
+        rw [hm] at this
+        simp only [this, ih]
+
+/-- htlc_helpers_accepted, outputs -/
+theorem addWitnessHTLCToOutputs_accepted (env : Env) (sign : Key → Msg → Sig) (hsign : ∀ k m, env.valid (sign k m) k m = true)
+    (k : Key) (proofs : List Proof) (s0 : Secret) (keys : List Key) (pre : String)
+    (hshared : SharedCondition env proofs s0 keys 1) (hkind : s0.kind = .htlc) (hk : k ∈ keys) (hopen : Opens env pre s0.data)
+    (outs outs' : List Output) (h : addWitnessHTLCToOutputs sign pre k outs = .ok outs') :
+    verifyBlindedMessages env proofs outs' = .ok () := by
+  rw [verifyBlindedMessages_of_shared hshared]
+  exact checkOutputs_htlc_helper env sign hsign k s0 keys pre hkind hk hopen outs outs' h
+
 end Gonuts.Lemmas.Spend
